@@ -45,6 +45,9 @@ pub(crate) struct Loop {
     pub start_ip: usize,
     // Placeholders for jumps to the end of the loop, updated when the loop compilation is complete
     pub jump_placeholders: Vec<usize>,
+    // The number of try blocks in the loop's body that are currently being compiled,
+    // break and continue need to end them before jumping out of them.
+    pub open_try_blocks: usize,
 }
 
 #[derive(Clone, Debug, PartialEq)]
@@ -340,7 +343,15 @@ impl Frame {
             start_ip: loop_start_ip,
             result_register,
             jump_placeholders: Vec::new(),
+            open_try_blocks: 0,
         });
+    }
+
+    // Called when the compilation of a try block starts (+1) or ends (-1)
+    pub fn adjust_open_try_blocks_in_loop(&mut self, delta: isize) {
+        if let Some(loop_info) = self.loop_stack.last_mut() {
+            loop_info.open_try_blocks = loop_info.open_try_blocks.saturating_add_signed(delta);
+        }
     }
 
     pub fn push_loop_jump_placeholder(&mut self, placeholder_ip: usize) -> Result<(), FrameError> {
